@@ -46,8 +46,11 @@ DOMAINS = {
 
 class Case:
     def __init__(self, stmts, specs=world.DEFAULT_SPECS, tag='', doms=None, vm_steps=600,
-                 ref_steps=300, init_colors=None):
+                 ref_steps=300, init_colors=None, before=None):
         self.stmts = stmts
+        # a script the same Machine has run to its end before this one (reset in between, as ScriptJob.execute does);
+        # the reference semantics never sees it: a run does not depend on earlier runs
+        self.before = before
         self.specs = specs
         self.tag = tag
         self.doms = doms or {}
@@ -144,6 +147,16 @@ def run_vm(case, prog, slots, values, monitor=None, post=None):
         setattr(inst, attr, v if sign > 0 else -v)
     m = Machine()
     m.reset()
+    if getattr(case, 'before', None):
+        saved_ctx = symx.Ctx.cur
+        p0 = Parser()
+        if not p0.parse(case.before):
+            raise CompileError('the script to run before does not compile: %s' % p0.get_errors())
+        m.run(p0.get_program())
+        assert symx.Ctx.cur is saved_ctx
+        del net.trace[:]
+        net.aborted = None
+        m.reset()
     net.machine = m
     net.steps = _instrument(m, case.vm_steps, monitor)
     try:
@@ -217,6 +230,8 @@ def text_with_values(case, vals):
     for sid in sorted(vals, reverse=True):
         v = vals[sid]
         t = t.replace(refsem.sent_text(sid), refsem._num_text(v) if v >= 0 else '-' + refsem._num_text(-v))
+    if getattr(case, 'before', None):
+        t = '# run on a Machine that has run this script to its end before (reset in between): %s\n%s' % (case.before, t)
     return t
 
 
